@@ -21,7 +21,7 @@ func init() {
 			"heights up to 30 with windows of <= 200 nodes around random and extreme paths (pruned DFS oracle). Decode: masks of height <= 11 (thorough <= 14) x bitmaps shorter, equal and longer than ceil(size/64) words, empty, all-ones (bits >= bitmapSize set), random subsets; " +
 			"round trip: random subsets of stored nodes -> bits set by the harness at the node's list position -> Decode returns the subset. Non-trivial+distinct = hash of (mask, from, to) with a non-empty expected output, hash of (mask, bm) with a non-empty subset.",
 		Assumptions: []string{"mask >= 1; output kept small for big heights (the property's own restriction)", "bit k of bm for the k-th stored node in pre-order: the list position, not the library's PathToIndex (C03 ties the two together)"},
-		Flavours:    releaseAnd386,
+		Flavours:    releaseAnd386Debug,
 		Required: []string{"long-run/calls>=100000-per-function", "arguments-in-read-only-memory", "range/from-on-path", "range/from-between-paths", "range/to-on-path", "range/to-beyond-last", "range/from>to", "range/full", "range/empty-result", "range/high-half>=2^h",
 			"level/absent", "h>=20", "decode/bm-shorter", "decode/bm-longer", "decode/bm-empty", "decode/bits>=bitmapSize", "decode/roundtrip", "decode/all-ones", "decode/bm>=2^31-bits", "decode/height>=16"},
 		Families: func(c *mon.Config) []mon.Family {
